@@ -15,6 +15,8 @@ Contracts.V2000File — C08, first clause, as a theorem about files (AUDIT findi
  * `ChoiceL`, `lists_irrelevant`, `read_v2000_render_lists`, `read_v2000_eq_v3000_lists`: atom-list lines (`lll`).
  * `exMol`, `exChoice`, `exMol_wf`, `exChoice_ok`: a concrete rendering (checked against the real code) — the
    hypotheses are satisfiable.
+ * `dMol`, `dChoice`, `read_D_iso5`: `D` with an `M  ISO` entry stating mass 5 for it is read as mass 2 (an ISO entry
+   naming a `D` / `T` atom may state anything, `Choice.OK.entries`).
 -/
 import Contracts.Final
 import Contracts.Bonds
@@ -368,8 +370,12 @@ structure Choice.OK (m : AMol) (c : Choice) : Prop where
   others : ∀ s, Item.other s ∈ c.items → lineKind s = none ∧ s ≠ endLine
   /-- at most eight entries per line -/
   lineLen : ∀ K es, Item.prop K es ∈ c.items → es.length ≤ 8
-  /-- every entry names an atom of the molecule and states that atom's value -/
-  entries : ∀ K es, Item.prop K es ∈ c.items → ∀ e ∈ es, 1 ≤ e.1 ∧ ∃ a, m.atoms[e.1 - 1]? = some a ∧ e.2 = valOf K a
+  /-- every entry names an atom of the molecule and states that atom's value — except that an `M  ISO` entry naming
+  an atom written `D` / `T` may state any value that fits its three columns (0 and a "wrong" mass included): the
+  symbol fixes the mass, "D and T keep denoting hydrogen-2 and hydrogen-3 whatever other property lines the file
+  contains" -/
+  entries : ∀ K es, Item.prop K es ∈ c.items → ∀ e ∈ es, 1 ≤ e.1 ∧ ∃ a, m.atoms[e.1 - 1]? = some a ∧
+    (e.2 = valOf K a ∨ (K = Kind.iso ∧ isoOf a.sym ≠ 0 ∧ -99 ≤ e.2 ∧ e.2 ≤ 999))
   /-- without CHG/RAD lines the charge codes state charge and radical of every atom -/
   byCode : ¬ Supersede c.items → ∀ i a, m.atoms[i]? = some a →
     codeChg (c.code i) = a.chg ∧ codeRad (c.code i) = a.rad
@@ -443,7 +449,8 @@ variable (m : AMol) (c : Choice) (hc : c.OK m) (i : Nat) (a : AAtom) (hi : m.ato
 include hc hi
 
 theorem lastWins_val (K : Kind) (v : Int)
-    (h : lastWins (entriesOf (c.items.filterMap Item.parsed) K) (i : Int) = some v) : v = valOf K a := by
+    (h : lastWins (entriesOf (c.items.filterMap Item.parsed) K) (i : Int) = some v) :
+    v = valOf K a ∨ (K = Kind.iso ∧ isoOf a.sym ≠ 0) := by
   obtain ⟨es, hit, e, he, hp⟩ := (mem_entriesOf _ _ _).mp (lastWins_mem _ _ _ h)
   obtain ⟨h1, a', ha', hv⟩ := hc.entries K es hit e he
   simp only [Prod.mk.injEq] at hp
@@ -451,7 +458,7 @@ theorem lastWins_val (K : Kind) (v : Int)
   have : e.1 - 1 = i := by omega
   rw [this, hi] at ha'
   cases ha'
-  exact hv
+  exact hv.imp id (fun h => ⟨h.1, h.2.1⟩)
 
 theorem lastWins_none (K : Kind)
     (h : lastWins (entriesOf (c.items.filterMap Item.parsed) K) (i : Int) = none) : ¬ Listed c.items K i := by
@@ -491,7 +498,7 @@ theorem specGet_render (env : DepEnv) (m : AMol) (hm : m.WF) (c : Choice) (hc : 
           by_contra hne; exact this ((hc.byLine hS i a hi).1 hne)
         simp [h0, optInt_zero]
       | some v =>
-        have hv : v = a.chg := lastWins_val m c hc i a hi .chg v hl
+        have hv : v = a.chg := (lastWins_val m c hc i a hi .chg v hl).resolve_right (fun h => by cases h.1)
         subst hv
         by_cases h0 : a.chg = 0
         · simp [h0, optInt_zero]
@@ -519,7 +526,7 @@ theorem specGet_render (env : DepEnv) (m : AMol) (hm : m.WF) (c : Choice) (hc : 
             by_contra hne; exact this ((hc.byLine hS i a hi).2 hne)
           simp [h0, optInt_zero]
         | some v =>
-          have hv : v = (a.rad : Int) := lastWins_val m c hc i a hi .rad v hl
+          have hv : v = (a.rad : Int) := (lastWins_val m c hc i a hi .rad v hl).resolve_right (fun h => by cases h.1)
           subst hv
           by_cases h0 : (a.rad : Int) = 0
           · simp [h0, optInt_zero]
@@ -538,25 +545,27 @@ theorem specGet_render (env : DepEnv) (m : AMol) (hm : m.WF) (c : Choice) (hc : 
       · subst h3
         rw [Contracts.V2000.specGet_mass, hold]
         simp only [nodeAttr, baseAttr, String.reduceEq, if_false, if_true]
-        cases hl : lastWins (entriesOf (c.items.filterMap Item.parsed) .iso) (i : Int) with
-        | none =>
-          have hnl := lastWins_none m c hc i a hi .iso hl
-          by_cases h0 : a.mass = 0
-          · have : isoOf a.sym = 0 := by
-              by_contra hne; have := haw.iso hne; omega
-            simp [h0, this]
-          · rcases hc.iso i a hi h0 with h | h
-            · simp [haw.iso h]
-            · exact absurd h hnl
-        | some v =>
-          have hv : v = (a.mass : Int) := lastWins_val m c hc i a hi .iso v hl
-          subst hv
-          by_cases h0 : a.mass = 0
-          · have : isoOf a.sym = 0 := by
-              by_contra hne; have := haw.iso hne; omega
-            simp [h0, this]
-          · have h0' : (a.mass : Int) ≠ 0 := by omega
-            simp [h0, h0', optInt_ne h0']
+        by_cases hiso : isoOf a.sym = 0
+        · -- an ordinary symbol: the ISO entries decide
+          simp only [hiso, Nat.cast_zero, optInt_zero]
+          cases hl : lastWins (entriesOf (c.items.filterMap Item.parsed) .iso) (i : Int) with
+          | none =>
+            have hnl := lastWins_none m c hc i a hi .iso hl
+            have h0 : a.mass = 0 := by
+              by_contra h0
+              rcases hc.iso i a hi h0 with h | h
+              · exact h hiso
+              · exact hnl h
+            simp [h0, optInt_zero]
+          | some v =>
+            have hv : v = (a.mass : Int) :=
+              (lastWins_val m c hc i a hi .iso v hl).resolve_right (fun h => h.2 hiso)
+            subst hv
+            simp [optInt]
+        · -- `D` / `T`: the symbol decides, whatever the ISO entries state
+          have hmass : a.mass = isoOf a.sym := haw.iso hiso
+          have h0' : ((isoOf a.sym : Nat) : Int) ≠ 0 := by omega
+          simp only [hmass, optInt_ne h0']
       · rw [Contracts.V2000.specGet_other _ _ _ _ h1 h2 h3, hold]
         simp only [nodeAttr, baseAttr, h1, h2, h3, if_false]
 
@@ -674,11 +683,13 @@ theorem items_legal : ∀ it ∈ c.items, it.Legal (atomDict (attrsList env m c)
       have haw := hm.atoms a (List.mem_of_getElem? ha)
       have hn := hm.natoms
       refine ⟨by omega, ?_⟩
-      rw [hv]
-      cases K
-      · exact ⟨haw.chgLo, haw.chgHi⟩
-      · have := haw.rad; simp only [valOf]; omega
-      · have := haw.mass; simp only [valOf]; omega
+      rcases hv with hv | ⟨_, _, hlo, hhi⟩
+      · rw [hv]
+        cases K
+        · exact ⟨haw.chgLo, haw.chgHi⟩
+        · have := haw.rad; simp only [valOf]; omega
+        · have := haw.mass; simp only [valOf]; omega
+      · exact ⟨hlo, hhi⟩
     · intro e he
       obtain ⟨h1, a, ha, hv⟩ := hc.entries K es hit e he
       have hlt := (List.getElem?_eq_some_iff.mp ha).1
@@ -1565,6 +1576,110 @@ theorem exChoice_ok : exChoice.OK exMol := by
     interval_cases i <;> simp [exMol] at ha <;> subst ha <;>
       first | exact absurd rfl hmass | exact Or.inr (listed_of_listedB (by decide)) | exact Or.inl (by decide)
 
+/-! ### `D` with a contradicting `M  ISO` entry: the symbol wins -/
+
+/-- `D`–¹⁸O (blank coordinate fields, read as 0) -/
+def dMol : AMol := ⟨[
+  ⟨py!"D", 0, 0, 2, py!"", py!"", py!""⟩,
+  ⟨py!"O", 0, 0, 18, py!"", py!"", py!""⟩],
+  [⟨0, 1, 1⟩]⟩
+
+/-- a rendering whose `M  ISO` line states mass 5 for the `D` atom (and 18 for the oxygen) -/
+def dChoice : Choice where
+  h0 := py!"D-18O"
+  h1 := py!""
+  h2 := py!""
+  countsMid := py!"  0  0  0  0  0  0  0999"
+  countsTrail := 0
+  code := fun _ => 0
+  atomRest := fun _ => py!"  0  0  0"
+  bondRest := fun _ => py!"  0"
+  items := [Item.prop .iso [(1, 5), (2, 18)]]
+  post := []
+
+example : v2000Lines dMol dChoice = [
+    py!"D-18O", py!"", py!"",
+    py!"  2  1  0  0  0  0  0  0  0  0999 V2000",
+    py!"                               D   0  0  0  0  0",
+    py!"                               O   0  0  0  0  0",
+    py!"  1  2  1  0",
+    py!"M  ISO  2   1   5   2  18",
+    py!"M  END"] := by decide
+
+theorem dMol_wf : dMol.WF := by
+  refine ⟨by decide, by decide, ?_, ?_⟩
+  · intro a ha
+    simp only [dMol, List.mem_cons, List.not_mem_nil, or_false] at ha
+    rcases ha with rfl | rfl <;>
+      exact ⟨by decide, by decide, by decide, by decide, by decide, by decide, by decide, by decide, by decide⟩
+  · intro b hb
+    simp only [dMol, List.mem_cons, List.not_mem_nil, or_false] at hb
+    subst hb; exact ⟨by decide, by decide, by decide, by decide⟩
+
+/-- the rendering is well-formed although its ISO entry for the `D` atom states 5, not 2 -/
+theorem dChoice_ok : dChoice.OK dMol := by
+  have hnsup : ¬ Supersede dChoice.items := by
+    rintro ⟨K, es, h, hK⟩
+    simp only [dChoice, List.mem_cons, List.not_mem_nil, or_false, Item.prop.injEq] at h
+    exact hK h.1
+  have hat : ∀ i a, dMol.atoms[i]? = some a → i < 2 := by
+    intro i a h; exact (List.getElem?_eq_some_iff.mp h).1
+  refine ⟨fun _ _ => Nat.zero_le _, ?_, ?_, ?_, ?_, fun h => absurd h hnsup, ?_⟩
+  · intro s hs; simp [dChoice] at hs
+  · intro K es h
+    simp only [dChoice, List.mem_cons, List.not_mem_nil, or_false, Item.prop.injEq] at h
+    obtain ⟨rfl, rfl⟩ := h; decide
+  · intro K es h e he
+    simp only [dChoice, List.mem_cons, List.not_mem_nil, or_false, Item.prop.injEq] at h
+    obtain ⟨rfl, rfl⟩ := h
+    simp only [List.mem_cons, List.not_mem_nil, or_false] at he
+    rcases he with rfl | rfl
+    · -- the entry `1   5` names the `D` atom: any value is allowed
+      exact ⟨by decide, _, rfl, Or.inr ⟨rfl, by decide, by decide, by decide⟩⟩
+    · exact ⟨by decide, _, rfl, Or.inl rfl⟩
+  · intro _ i a ha
+    have hi := hat i a ha
+    interval_cases i <;> simp [dMol] at ha <;> subst ha <;> exact ⟨rfl, rfl⟩
+  · intro i a ha hmass
+    have hi := hat i a ha
+    interval_cases i <;> simp [dMol] at ha <;> subst ha
+    · exact Or.inl (by decide)
+    · exact Or.inr (listed_of_listedB (by decide))
+
+theorem dChoice_noBreaks : dChoice.NoBreaks dMol where
+  h0 := by unfold NoBreak; decide
+  h1 := by unfold NoBreak; decide
+  h2 := by unfold NoBreak; decide
+  mid := by unfold NoBreak; decide
+  atomRest := fun _ => by show NoBreak py!"  0  0  0"; unfold NoBreak; decide
+  bondRest := fun _ => by show NoBreak py!"  0"; unfold NoBreak; decide
+  others := by intro s hs; simp [dChoice] at hs
+  post := by unfold NoBreak; decide
+  coords := by unfold NoBreak; decide
+
+theorem dMol_coords (env : DepEnv) : CoordsOK env dMol := by
+  intro a ha t ht
+  simp only [dMol, List.mem_cons, List.not_mem_nil, or_false] at ha
+  rcases ha with rfl | rfl <;>
+    (simp only [List.mem_cons, List.not_mem_nil, or_false, or_self] at ht; subst ht; exact ⟨Val.int 0, rfl⟩)
+
+/-- **witness: `D` + `M  ISO  2   1   5   2  18`** is read (any line separator, any float parser) as hydrogen of
+mass 2 — not 5 — bonded to oxygen of mass 18 -/
+theorem read_D_iso5 (env : DepEnv) (fuel : Nat) (sep : Str) (hsep : IsSep sep) :
+    ∃ g, Tucan.molfile_reader.graph_from_molfile_text env fuel (renderV2000 sep dMol dChoice) = .ok g ∧
+      g.nodeList = range 2 ∧
+      g.attr 0 "element_symbol" = some (Val.str py!"H") ∧ g.attr 0 "mass" = some (Val.int 2) ∧
+      g.attr 1 "element_symbol" = some (Val.str py!"O") ∧ g.attr 1 "mass" = some (Val.int 18) := by
+  obtain ⟨g, hg, _, _, hn, hat, _, _⟩ :=
+    read_v2000_render env fuel sep hsep dMol dMol_wf dChoice dChoice_ok dChoice_noBreaks (dMol_coords env)
+  have a0 := hat 0 ⟨py!"D", 0, 0, 2, py!"", py!"", py!""⟩ rfl
+  have a1 := hat 1 ⟨py!"O", 0, 0, 18, py!"", py!"", py!""⟩ rfl
+  refine ⟨g, hg, hn, ?_, ?_, ?_, ?_⟩
+  · rw [show g.attr 0 "element_symbol" = _ from a0 "element_symbol"]; rfl
+  · rw [show g.attr 0 "mass" = _ from a0 "mass"]; rfl
+  · rw [show g.attr 1 "element_symbol" = _ from a1 "element_symbol"]; rfl
+  · rw [show g.attr 1 "mass" = _ from a1 "mass"]; rfl
+
 /-! ## 6. atom-list lines (`lll` of the counts line): irrelevant -/
 
 /-- a rendering with atom-list lines (query feature `aaa kSSSSn 111 222 333 444 555`, counted by `lll` of the
@@ -1741,3 +1856,4 @@ end Contracts.V2000File
 #print axioms Contracts.V2000File.lists_irrelevant
 #print axioms Contracts.V2000File.read_v2000_render_lists
 #print axioms Contracts.V2000File.read_v2000_eq_v3000_lists
+#print axioms Contracts.V2000File.read_D_iso5
